@@ -101,8 +101,14 @@ def rand_net(rng, v):
     return ipaddress.ip_network((val, plen))
 
 
+SPECIAL_V4 = ['255.255.255.255', '0.0.0.0', '127.0.0.1', '224.0.0.1', '10.0.0.255', '0.0.0.1', '1.0.0.0']
+SPECIAL_V6 = ['::', '::1', '::ffff:192.0.2.1', '::ffff:10.1.2.3', '::ffff:0.0.0.0', '::192.0.2.1', '64:ff9b::c000:201', 'fe80::1', 'ff02::1', '2002:c000:201::', 'ffff:ffff:ffff:ffff:ffff:ffff:ffff:ffff',
+              '0:0:0:0:0:0:0:100', '100::']
+
+
 def rand_addr(rng, v):
-    return ipaddress.ip_address(rng.getrandbits(32 if v == 4 else 128)) if rng.random() < 0.8 else ipaddress.ip_address('255.255.255.255' if v == 4 else '::')
+    # special-purpose addresses are addresses like any other for this property: IPv4-mapped / compatible / NAT64 IPv6 addresses stay 16-octet IPv6 addresses
+    return ipaddress.ip_address(rng.getrandbits(32 if v == 4 else 128)) if rng.random() < 0.7 else ipaddress.ip_address(rng.choice(SPECIAL_V4 if v == 4 else SPECIAL_V6))
 
 
 PORTS = [0, 1, 23, 255, 256, 443, 0x1234, 65534, 65535]
